@@ -22,7 +22,8 @@ type MillisatoshiPerByte = u64;
 
 // [trusted:stand-in] OutPointsCache / NextBlockHeaders: entry-API maps, outside Verus; opaque here
 struct OutPointsCache { _p: u8 }
-struct NextBlockHeaders { _p: u8 }
+// ghost `offered`: how many times a batch of announced headers has been offered to it (insert_next_block_headers calls)
+struct NextBlockHeaders { _p: u8, offered: Ghost<nat> }
 impl NextBlockHeaders {
     uninterp spec fn max_height_spec(&self) -> Option<Height>;
     // [trusted:assumed-contract] NextBlockHeaders::get_max_height (BTreeMap last_key_value): opaque value
